@@ -276,10 +276,16 @@ def rpc_predicate(c, o):
     if w and c["mode"] != "withhold":
         bad.append({"failed": f"{w['permits']} handler starts in [{w['from']},{w['to']}] > burst + T/refresh + 1 = {w['bound']}", "window": w})
     elif w:
+        # withhold-style run: the streams were opened (one permit each) before the peer released the requests at
+        # `release`; only windows containing that instant may exceed the strict bound, and by at most INFLIGHT.
         excess = w
+        release = sum(int(x) for x in c.get("warm", []))
         w2 = window_violation(starts, burst + n, refresh)
         if w2:
             bad.append({"failed": f"{w2['permits']} handler starts in [{w2['from']},{w2['to']}] > burst + T/refresh + 1 + INFLIGHT = {w2['bound']}", "window": w2})
+        w3 = window_violation([x for x in starts if x[0] > release], burst, refresh)
+        if w3:
+            bad.append({"failed": f"{w3['permits']} handler starts in [{w3['from']},{w3['to']}] (no stream opened before the window: after the release at {release}) > burst + T/refresh + 1 = {w3['bound']}", "window": w3})
     return bad, excess
 
 
@@ -595,6 +601,9 @@ def run(rep):
     registered = [e for e in known.get("open", []) if "property=C15" in e]
     if excesses and registered:
         rep.known(registered[0].split("property=C15", 1)[1].strip())
+    elif excesses:
+        rpc_fail.append({"case": excesses[0]["case"], "impl": {}, "window": excesses[0]["window"],
+                         "failed": f"{excesses[0]['window']['permits']} handler starts in [{excesses[0]['window']['from']},{excesses[0]['window']['to']}] > burst + T/refresh + 1 = {excesses[0]['window']['bound']} (peer withheld the requests of pre-opened streams; not registered in known_findings.json)"})
     if rpc_fail and not pred_fail and not mux_fail:
         rpc_fail.sort(key=lambda f: len(f["impl"].get("events", [])))
         rep.violation("rpc::Service violates C15 on the implementation: " + rpc_fail[0]["failed"],
@@ -638,7 +647,7 @@ def run(rep):
                            "example": excesses[0] if excesses else None,
                            "meaning": "a raw peer opens every INFLIGHT stream, withholds the requests while the bucket refills, then sends them at once: "
                                       "handler starts in a window exceed burst + T/refresh + 1 (the limiter bounds OPENs, not handler starts); "
-                                      "enforced there: burst + T/refresh + 1 + INFLIGHT"},
+                                      "reported as KNOWN-FINDING when registered in known_findings.json, VIOLATION otherwise; beyond burst + T/refresh + 1 + INFLIGHT, or a strict excess in a window after the release instant, is always a VIOLATION"},
         "mux_cases": len(mcases), "mux_traces_accepted_by_model": len(traces) - len(tmm), "mux_traces": len(traces), "mux_streams_opened": mux_opens,
         "mux_predicate_failures": len(mux_fail),
         "distinct_nontrivial": len(distinct),
